@@ -136,17 +136,7 @@ def topTag (s : State) (t : Tid) : String :=
 
 /-- driver-only rule for the END of a run with failed thread creations: `~ThreadPool`'s join loop meets the context of a
     never-started thread; `Thread::join` returns at once (`if(!thread) return 0;`), no scheduling point -/
-def passDead (dead : Env) (s : State) (t : Tid) : Option State :=
-  match s.threads t, s.pool with
-  | some th, some p =>
-    match th.stack with
-    | .dJoin i :: _ =>
-      match p.ctxs[i]? with
-      | some { tid := some w, .. } =>
-        if dead.dead.contains w then some (setThread s t (th.cont [if i + 1 < p.ctxs.length then .dJoin (i + 1) else .dFin])) else none
-      | _ => none
-    | _ => none
-  | _, _ => none
+def passDead (dead : Env) (s : State) (t : Tid) : Option State := (xpass (dead.x s) t).map (·.s)
 
 /-- one micro-step of the replay: the extended system of `SpawnFail.lean` (environment = bit mask `cf`) -/
 def stepD (cf : Nat) (dead : Env) (s : State) (t : Tid) : Option (State × List String × Env) :=
